@@ -6,7 +6,7 @@ use log::warn;
 /// seconds leads to undefined behaviour.
 pub fn dms_to_dd(d: i32, m: u16, s: f64) -> f64 {
     let sign = if d < 0 { -1. } else { 1. };
-    sign * (d.abs() as f64 + (m as f64 + s / 60.) / 60.)
+    sign * (d.unsigned_abs() as f64 + (m as f64 + s / 60.) / 60.)
 }
 
 /// Simplistic transformation from degrees and minutes-with-decimals
@@ -15,7 +15,7 @@ pub fn dms_to_dd(d: i32, m: u16, s: f64) -> f64 {
 /// to undefined behaviour.
 pub fn dm_to_dd(d: i32, m: f64) -> f64 {
     let sign = if d < 0 { -1. } else { 1. };
-    sign * (d.abs() as f64 + (m / 60.))
+    sign * (d.unsigned_abs() as f64 + (m / 60.))
 }
 
 /// Simplistic transformation from the ISO-6709 DDDMM.mmm format to
